@@ -15,7 +15,24 @@ tagged with the as-found flags that explain it; an unexplained deviation is a vi
 """
 import itertools
 
-from common import cbool, clist, cnat, copt, cstr, cz
+import os
+import re
+import subprocess
+
+from common import COQ, cbool, clist, copt
+
+
+def cz(n):           # Z_scope is open in the generated files
+    n = int(n)
+    return str(n) if n >= 0 else "(%d)" % n
+
+
+def cnat(n):
+    return "%d%%nat" % int(n)
+
+
+def cstr(s):         # string_scope is open in the generated files
+    return '"' + s.replace('"', '""') + '"'
 
 LEVEL = "proof"
 THEOREMS = "Props/C04.v"
@@ -241,15 +258,46 @@ def coq_case(v, ops):
 REQ = ["MD.Topo.Model", "MD.Topo.Carriers", "MD.Topo.Run"]
 
 
+HEADER = ["From Coq Require Import String Ascii.", "From Coq Require Import ZArith List Bool.",
+          "Import ListNotations.", "Require Import MD.Topo.Model MD.Topo.Carriers MD.Topo.Run.",
+          "Open Scope string_scope.", "Open Scope Z_scope."]
+
+
+def run_coq_files(ctx, files, tag):
+    """Run coqc on the files (6 at a time); returns (list of output tails after the tag, errors)."""
+    outs, errs = [], []
+    running = []
+    todo = list(files)
+    while todo or running:
+        while todo and len(running) < 6:
+            p = todo.pop(0)
+            running.append(subprocess.Popen(["timeout", "1500", "coqc", "-Q", COQ, "MD", p], cwd=ctx.tmp,
+                                            stdout=subprocess.PIPE, stderr=subprocess.STDOUT, text=True))
+        pr = running.pop(0)
+        out = pr.communicate()[0]
+        i = out.find('"%s"' % tag)
+        if pr.returncode != 0 or i < 0:
+            errs.append(out[-3000:])
+        else:
+            outs.append(out[i:])
+    return outs, errs
+
+
 def model_agrees(ctx, jobs):
     """jobs: list of (flag vector, concrete ops, impl obs) -> list of bools (model output == obs)."""
-    cases = [(coq_case(v, ops), cjv(obs)) for v, ops, obs in jobs]
-    bad, errs = ctx.coq_mismatches(REQ, ("flags * list op", "jv"), "jv_eqb", "run_case", cases, shard=120)
+    lines = HEADER + ["Definition cases : list (nat * (flags * list op) * jv) := ["]
+    lines.append(";\n".join("(%d%%nat, %s, %s)" % (i, coq_case(v, ops), cjv(obs)) for i, (v, ops, obs) in enumerate(jobs)))
+    lines += ["].", 'Definition tag := "AGREE".',
+              "Eval vm_compute in (tag, map (fun c => fst (fst c)) (filter (fun c => jv_eqb (run_case (snd (fst c))) (snd c)) cases))."]
+    p = os.path.join(ctx.tmp, "agree_%d.v" % len(os.listdir(ctx.tmp)))
+    with open(p, "w") as fh:
+        fh.write("\n".join(lines) + "\n")
+    outs, errs = run_coq_files(ctx, [p], "AGREE")
     if errs:
         ctx.break_("correspondence:coqc-evaluation", "\n".join(errs))
         return None
-    bs = set(bad)
-    return [i not in bs for i in range(len(jobs))]
+    good = {int(x) for x in re.findall(r"(\d+)%nat", outs[0])}
+    return [i in good for i in range(len(jobs))]
 
 
 # ---------------------------------------------------------------------------- probes for the variant vector
@@ -311,9 +359,15 @@ def detect_flags(ctx):
             v.update(dict(zip(deps, bits)))
             jobs.append((v, ops, o["obs"]))
             key.append((n, dict(zip(deps, bits))))
-    ok = model_agrees(ctx, jobs)
+    ok = model_agrees(ctx, jobs)            # vm_compute inside coqc
     if ok is None:
         return None
+    ex = model_outputs(ctx, [(v, ops) for v, ops, _o in jobs])     # OCaml extraction of the same definitions
+    if ex is None:
+        return None
+    for (v, ops, o), good, line in zip(jobs, ok, ex):
+        if good != (line == show(o)):
+            ctx.break_("correspondence:extraction-vs-vm_compute", "the extracted model and vm_compute disagree on %s" % ops)
     det = {}
     for n in names:
         cands = [k for (nn, k), good in zip(key, ok) if nn == n and good]
@@ -341,40 +395,154 @@ def bucket(ops):
     return "%s%s" % ("+".join(sorted(set(kinds))) or "build-only", "/edit" if edits else "")
 
 
+RELEVANT = {"cid_copy": {"copy", "join"}, "cid_join": {"join"}, "cid_subset": {"subset"}, "repoint": {"copy", "join"},
+            "resseq0": {"subset"}, "remove_id": {"delete"}, "del_bonds": {"delete"}, "hash": None,
+            "conect_num": {"pdb"}, "conect_del": {"pdb"}, "h5_full": {"h5"}}
+
+
+# ---------------------------------------------------------------------------- extracted model (bulk evaluation)
+def show(x):
+    """Canonical rendering of an observation; harness/impl/topo_driver.ml renders the model's jv the same way."""
+    if x is None:
+        return "~"
+    if isinstance(x, bool):
+        return "T" if x else "F"
+    if isinstance(x, int):
+        return str(x)
+    if isinstance(x, str):
+        return "'" + x + "'"
+    return "[" + ",".join(show(y) for y in x) + "]"
+
+
+def line_op(o):
+    def st(x):
+        return "~" if x is None else "s:" + ("VS" if x == "VS0" else x)
+
+    def nn(x):
+        return "~" if x is None else str(int(x))
+    k = o[0]
+    if k == "new":
+        return "new"
+    if k == "add_chain":
+        return "add_chain %d %s" % (o[1], st(o[2]))
+    if k == "add_residue":
+        return "add_residue %d %d %s %s %s" % (o[1], o[2], st(o[3]), nn(o[4]), st(o[5]))
+    if k == "add_atom":
+        return "add_atom %d %d %s %s %s" % (o[1], o[2], st(o[3]), st(o[4]), nn(o[5]))
+    if k == "add_bond":
+        return "add_bond %d %d %d %s %s" % (o[1], o[2], o[3], o[4] or "~", nn(o[5]))
+    if k == "insert_atom":
+        return "insert_atom %d %d %s %s %s %s %s" % (o[1], o[2], st(o[3]), st(o[4]), nn(o[5]), nn(o[6]), nn(o[7]))
+    if k == "delete":
+        return "delete %d %d" % (o[1], o[2])
+    if k in ("copy", "pickle", "df", "h5"):
+        return "%s %d" % (k, o[1])
+    if k == "subset":
+        return "subset %d l:%s" % (o[1], ",".join(str(int(i)) for i in o[2]))
+    if k == "join":
+        return "join %d %d %s" % (o[1], o[2], "T" if o[3] else "F")
+    if k == "pdb":
+        return "pdb %d %s" % (o[1], "T" if o[2] else "F")
+    raise ValueError(o)
+
+
+def build_driver(ctx):
+    """Extract run_case from the compiled Coq model and compile the line driver (about 3 s)."""
+    if getattr(ctx, "_c04_driver", None):
+        return ctx._c04_driver
+    d = os.path.join(ctx.tmp, "ocaml")
+    os.makedirs(d, exist_ok=True)
+    with open(os.path.join(d, "ex.v"), "w") as fh:
+        fh.write("Require Import MD.Topo.Model MD.Topo.Carriers MD.Topo.Run.\nRequire Extraction.\n"
+                 "Require Import ExtrOcamlBasic ExtrOcamlString.\nExtraction Language OCaml.\n"
+                 'Extraction "topo_model.ml" run_case flags_of.\n')
+    src = os.path.join(os.path.dirname(os.path.dirname(os.path.abspath(__file__))), "impl", "topo_driver.ml")
+    with open(src) as fh, open(os.path.join(d, "topo_driver.ml"), "w") as out:
+        out.write(fh.read())
+    for cmd in (["timeout", "300", "coqc", "-Q", COQ, "MD", "ex.v"],
+                ["timeout", "300", "ocamlfind", "ocamlopt", "-w", "-a", "topo_model.mli", "topo_model.ml",
+                 "topo_driver.ml", "-o", "driver"]):
+        r = subprocess.run(cmd, cwd=d, stdout=subprocess.PIPE, stderr=subprocess.STDOUT, text=True)
+        if r.returncode != 0:
+            ctx.break_("correspondence:model-extraction", r.stdout[-3000:])
+            return None
+    ctx._c04_driver = os.path.join(d, "driver")
+    return ctx._c04_driver
+
+
+def model_outputs(ctx, jobs):
+    """jobs: list of (flag vector, concrete ops) -> list of rendered model observations (extracted model)."""
+    drv = build_driver(ctx)
+    if drv is None:
+        return None
+    text = "\n".join("%s|%s" % ("".join("T" if v[f] else "F" for f in FLAGS), ";".join(line_op(o) for o in ops))
+                     for v, ops in jobs) + "\n"
+    r = subprocess.run(["timeout", "1500", drv], input=text, stdout=subprocess.PIPE, stderr=subprocess.PIPE, text=True)
+    lines = r.stdout.splitlines()
+    if r.returncode != 0 or len(lines) != len(jobs):
+        ctx.break_("correspondence:model-driver", "rc=%s lines=%d/%d %s" % (r.returncode, len(lines), len(jobs), r.stderr[-2000:]))
+        return None
+    return lines
+
+
+def verdicts(ctx, det, items):
+    """items: (ops, obs, candidate flag indices) -> list of (code, [flag indices]); same meaning as Topo.Run.verdict."""
+    fix = {f: True for f in FLAGS}
+    outs = model_outputs(ctx, [(fix, ops) for ops, _o, _c in items] + [(det, ops) for ops, _o, _c in items])
+    if outs is None:
+        return None
+    n = len(items)
+    want = [show(obs) for _ops, obs, _c in items]
+    res = [None] * n
+    follow = []
+    for i, (ops, _obs, cand) in enumerate(items):
+        if outs[i] == want[i]:
+            res[i] = (0, [])
+        elif outs[n + i] == want[i]:
+            res[i] = (1, [])
+            for fi in cand:
+                v = dict(det)
+                v[FLAGS[fi]] = True
+                follow.append((i, fi, v))
+        else:
+            res[i] = (2, [])
+    if follow:
+        outs2 = model_outputs(ctx, [(v, items[i][0]) for i, _fi, v in follow])
+        if outs2 is None:
+            return None
+        for (i, fi, _v), o in zip(follow, outs2):
+            if o != want[i]:
+                res[i][1].append(fi)
+    return res
+
+
 def check_cases(ctx, cases, det):
     """cases: list of {"ops": concrete prefix, "tail": abstract ops} or {"ops":..., "concrete": True}."""
     outs = run_impl(ctx, cases)
-    fix = {f: True for f in FLAGS}
-    jobs = []
+    items = []
     for o in outs:
-        jobs.append((det, o["ops"], o["obs"]))
-        jobs.append((fix, o["ops"], o["obs"]))
-    ok = model_agrees(ctx, jobs)
-    if ok is None:
+        kinds = {op[0] for op in o["ops"]}
+        cand = [i for i, f in enumerate(FLAGS) if not det[f] and (RELEVANT[f] is None or RELEVANT[f] & kinds)]
+        items.append((o["ops"], o["obs"], cand))
+    vs = verdicts(ctx, det, items)
+    if vs is None:
         return
-    cur_flags = [f for f in FLAGS if not det[f]]
-    follow = []          # (case index, flag) -> does repairing this one flag change the model's answer?
     unexplained = []
-    for i, o in enumerate(outs):
+    for i, (o, (code, resp)) in enumerate(zip(outs, vs)):
         ops = o["ops"]
         ctx.count({"ops": ops}, nontrivial=nontrivial(ops), bucket=bucket(ops))
-        agrees_det, agrees_fix = ok[2 * i], ok[2 * i + 1]
-        if agrees_fix:
+        if code == 0:
             continue
-        if agrees_det:
-            for f in cur_flags:
-                v = dict(det)
-                v[f] = True
-                follow.append((i, f, v))
+        if code == 1:
+            if not resp:       # the as-found vector explains the case but no single repair changes it
+                resp = [None]
+            for fi in resp:
+                f = FLAGS[fi] if fi is not None else "combination"
+                ctx.fail(DESC.get(f, "deviation from the all-repaired model explained only by several as-found variants together"),
+                         {"ops": ops, "concrete": True}, observed=o["obs"],
+                         expected="the all-repaired model (Coq run_case flags_fix)", tags={"defect": f})
         else:
             unexplained.append(i)
-    if follow:
-        ok2 = model_agrees(ctx, [(v, outs[i]["ops"], outs[i]["obs"]) for i, f, v in follow])
-        if ok2 is not None:
-            for (i, f, v), same in zip(follow, ok2):
-                if not same:      # repairing f alone changes what the model predicts here: f is visible in this case
-                    ctx.fail(DESC[f], {"ops": outs[i]["ops"], "concrete": True}, observed=outs[i]["obs"],
-                             expected="the all-repaired model (Coq run_case flags_fix)", tags={"defect": f})
     for i in unexplained:
         ctx.fail("topology history: implementation deviates from every model variant (unexplained)",
                  {"ops": outs[i]["ops"], "concrete": True}, observed={"obs": outs[i]["obs"], "errors": outs[i]["errors"]},
